@@ -2,7 +2,7 @@
     [index_get]) and the model-integrity hypothesis in prefix form. *)
 From Coq Require Import List NArith ZArith Bool Arith Lia Relations.
 From Coq Require Import ZifyN ZifyNat ZifyBool.
-From BBS Require Import Common.Sx Store.Model Store.WfTids Run.RStore Run.R01 Run.R05.
+From BBS Require Import Common.Sx Store.Model Store.Wf Store.WfTids Run.RStore Run.R01 Run.R05.
 From BBS Require Import Store.P05Cnt Store.P05Frame Store.P05Ops Store.P05Step Store.P05Surv Store.P05Mon Store.P05Inv Store.P05Main.
 Import ListNotations.
 Open Scope N_scope.
@@ -178,3 +178,39 @@ Qed.
 
 Lemma integ_of_model_integrity w es : model_integrity w es -> integ w (init_state (w_cfg w)) es.
 Proof. intros H. apply integ_of_prefixes. intros es1 es2 E NC. rewrite (H es1 es2 E NC). reflexivity. Qed.
+
+(** bridge to C01: its theorem "a corruption-free well-formed schedule ends
+    with s_negs = 0" gives [model_integrity] for every well-formed schedule,
+    because well-formedness is closed under prefixes *)
+Lemma wf_tids_from_prefix : forall es1 es2 seen,
+  wf_tids_from seen (es1 ++ es2) = true -> wf_tids_from seen es1 = true.
+Proof.
+  induction es1 as [|e t IH]; intros es2 seen H; [reflexivity|].
+  cbn [app wf_tids_from] in *. destruct (start_tid e).
+  - apply andb_true_iff in H. destruct H as [H1 H2]. rewrite H1. cbn. eapply IH; eauto.
+  - eapply IH; eauto.
+Qed.
+
+Lemma wf_ops_prefix w : forall es1 es2 pending,
+  Wf.wf_ops w pending (es1 ++ es2) = true -> Wf.wf_ops w pending es1 = true.
+Proof.
+  induction es1 as [|e t IH]; intros es2 pending H; [reflexivity|].
+  cbn [app] in H. destruct e; cbn [Wf.wf_ops] in *;
+    try (eapply IH; eauto; fail);
+    try (apply andb_true_iff in H; destruct H as [H1 H2]; rewrite H1; cbn [andb]; eapply IH; eauto).
+Qed.
+
+Definition C01_integrity_statement (w : world) : Prop :=
+  forall es, Wf.wf_ops w [] es = true -> wf_tids es = true ->
+             forallb (fun e => negb (is_corrupt e)) es = true ->
+             s_negs (fst (run w (init_state (w_cfg w)) es)) = O.
+
+Lemma model_integrity_from_C01 w es :
+  C01_integrity_statement w -> Wf.wf_ops w [] es = true -> wf_tids es = true -> model_integrity w es.
+Proof.
+  intros HC WO WT es1 es2 E NC. subst es. apply HC.
+  - eapply wf_ops_prefix; eauto.
+  - unfold wf_tids in *. eapply wf_tids_from_prefix; eauto.
+  - clear - NC. induction es1 as [|e t IH]; [reflexivity|]. cbn in *.
+    apply orb_false_iff in NC. destruct NC as [N1 N2]. rewrite N1. cbn. auto.
+Qed.
